@@ -112,6 +112,7 @@ type Node struct {
 	tip          H
 	tipTS        uint64
 	subActive    bool // a SubscribeForTxs call has not been answered with a notification yet (one-shot model)
+	curWhat      string // API call in progress
 	earlierLife  bool // see Receive
 	foreignEarly bool // an unrequested transaction was handed over while no request was outstanding (E2 foreign_tx)
 	ledgerAhead  bool // the ledger got the block of the height under consensus from elsewhere; Reset not called yet
@@ -499,6 +500,7 @@ func (n *Node) api(what string, in *Payload, f func()) {
 	}
 	n.callBroadcasts = n.callBroadcasts[:0]
 	n.curInput = in
+	n.curWhat = what
 	n.inAPI = true
 	w.cur = n
 	defer func() {
